@@ -11,6 +11,7 @@ G  every behaviour of the small configuration (+ simulated longer ones) is repla
    attributes).
 """
 import itertools
+import math
 import os
 import random
 import shutil
@@ -44,7 +45,14 @@ def ident(path, P):
 
 
 def attrs_ok(got, want):
-    return all(got.get(k) == v for k, v in (want or {}).items() if k != 'd')
+    def same(g, v):
+        if isinstance(v, (int, float)) and not isinstance(v, bool):
+            try:
+                return g is not None and float(g) == float(v)          # a number supplied as a number comes back as text spelling that number
+            except (TypeError, ValueError):
+                return False
+        return g == v
+    return all(same(got.get(k), v) for k, v in (want or {}).items() if k != 'd')
 
 
 def replay_history(ck, c, tmp, P):
@@ -160,6 +168,35 @@ def replay_history(ck, c, tmp, P):
     return True
 
 
+def nearly_identical_transforms(ck, tmp):
+    """a group transform that differs from the identity in the sixth digit is a transform: what was added under it reads back mapped by it, by every reader
+    (drawings in map coordinates make the difference tens of units)"""
+    for ti, (tf, f) in enumerate((('scale(1.000004)', lambda z: 1.000004 * z), ('translate(0.00001,0)', lambda z: z + 0.00001), ('rotate(0.0003)', lambda z: z * complex(math.cos(math.radians(0.0003)), math.sin(math.radians(0.0003)))),
+                                 ('matrix(1 0.000002 0 1 0 0)', lambda z: complex(z.real, z.imag + 0.000002 * z.real)))):
+        for off in (0j, 5e6 + 4e6j):
+            pth = sp.Path(sp.Line(off + 1 + 1j, off + 30 + 5j), sp.CubicBezier(off + 30 + 5j, off + 40 + 20j, off + 10 + 30j, off + 2 + 22j))
+            fn = os.path.join(tmp, 'near%d_%d.svg' % (ti, int(abs(off) > 0)))
+            ck.case(fp=('nearly-identity', tf, str(off)), nontrivial=True)
+            try:
+                doc = sp.Document()
+                g = doc.add_group(group_attribs={'transform': tf})
+                doc.add_path(pth, group=g)
+                doc.save(fn)
+                want = [f(pth[0].start), f(pth[1].point(0.5)), f(pth[1].end)]
+                res = {}
+                for who, get in (('Document.paths (before saving)', lambda: doc.paths()), ('Document.paths', lambda: sp.Document(fn).paths()), ('SaxDocument.flatten_all_paths', lambda: sp.SaxDocument(fn).flatten_all_paths())):
+                    ps = list(get())
+                    got = [ps[0][0].start, ps[0][1].point(0.5), ps[0][1].end] if len(ps) == 1 and len(ps[0]) == 2 else None
+                    tol = 1e-9 * (abs(off) + 50)
+                    if got is None or any(not (abs(a_ - b_) <= tol) for a_, b_ in zip(got, want)):
+                        res[who] = got
+                if res:
+                    ck.disagree(key='%s/nearly-identical-group-transform-not-applied' % sorted(res)[0].split(' ')[0], site='svgpathtools/svg_io_sax.py / document.py', what='group transform %s, path at offset %r: %r, expected %r' % (tf, off, res, want),
+                                case={'tf': tf, 'off': str(off)}, expected=[str(w_) for w_ in want], observed=repr(res), driver='history')
+            except Exception as e:      # noqa
+                ck.disagree(key='Document/nearly-identical-group-transform-raises', site='svgpathtools/document.py', what='group transform %s: raised %r' % (tf, e), case={'tf': tf}, expected='paths', observed=repr(e), driver='history')
+
+
 def wsvg_roundtrips(ck, rnd, tmp, P, n):
     keys = [1, 2, 3, 0]
     combos = [list(c) for r in (1, 2, 3) for c in itertools.permutations(keys, r)]
@@ -167,10 +204,14 @@ def wsvg_roundtrips(ck, rnd, tmp, P, n):
     names = ['w.svg', 'drawing', '.hidden', 'with space.svg', 'out.xml', 'deep/sub dir/file.svg']
     for ci, lst in enumerate(combos[:n]):
         fn = os.path.join(tmp, names[ci % len(names)])          # "for all filenames": also names without an extension / in a directory yet to be created
-        for amode in ('none', 'dicts', 'shared', 'styled'):
+        for amode in ('none', 'dicts', 'shared', 'styled', 'numeric'):
             paths = [P[k] for k in lst]
             shared = dict(ATTRS[2])
             attributes = None if amode == 'none' else ([shared] * len(lst) if amode == 'shared' else [dict(ATTRS[1 + (i % 2)]) for i in range(len(lst))])
+            if amode == 'numeric':
+                # values given as numbers, zero included (a fully transparent fill, a hairline of width 0 are ordinary settings)
+                attributes = [{'stroke-width': 0, 'fill-opacity': 0.0, 'opacity': 1, 'stroke-miterlimit': 4.5, 'stroke': 'black'} if i % 2 == 0 else {'stroke-width': 2.5, 'stroke-opacity': 0, 'fill': 'none'}
+                              for i in range(len(lst))]
             svg_attributes = {'width': '120', 'height': '90', 'viewBox': '0 0 120 90'} if amode != 'none' else None
             if amode == 'styled':
                 svg_attributes['style'] = 'stroke:blue;fill:yellow'
@@ -323,6 +364,7 @@ def run(ck):
         ck.count('histories', st['n'])
         wsvg_roundtrips(ck, rnd, tmp, P, 12 if quick else 40)
         nested_transform_roundtrip(ck, tmp, P)
+        nearly_identical_transforms(ck, tmp)
         polygon_rewrite(ck, tmp)
     finally:
         shutil.rmtree(tmp, ignore_errors=True)
